@@ -280,10 +280,13 @@ def node_maps(doc: Any, out: list[dict[str, Any]]) -> list[dict[str, Any]]:
     return out
 
 
-MUTS = ("del_id", "unknown_type", "bad_idx", "del_prop", "wrong_child")
+MUTS = ("del_id", "unknown_type", "bad_idx", "del_prop", "wrong_child", "root_not_mapping")
 
 
 def mutate_doc(doc: Any, k: int, mut: str) -> Any:
+    if mut == "root_not_mapping":
+        # malformed at depth 0: the document itself is not a mapping
+        return [[1, 2], "text", 5][k % 3]
     d = copy.deepcopy(doc)
     maps = node_maps(d, [])
     if k >= len(maps):
@@ -661,7 +664,7 @@ def make_config(rseed: int, prop: str, tier: str, faults: bool) -> dict[str, Any
             "p_ref": r.choice([0.0, 0.1]),
             "leaf_classes": leafs,
             "inner_classes": r.sample(["Pair", "Seq", "Mixed", "Fixed"], r.choice([2, 3, 4])),
-            "origins": r.sample(U.ORIGIN_KEYS, r.choice([2, 3, 5])),
+            "origins": r.sample(U.ORIGIN_KEYS + U.EXTRA_ORIGIN_KEYS, r.choice([2, 3, 5])),
             "pools": {"str": strpool, "bool": [True, False]},
             "actors": ["persister"],
             "rtc": False,
